@@ -14,7 +14,8 @@ def main(tier, seed, replay=None):
           cl.Config(n=2, crash=1, restart=1, rounds=12),
           cl.Config(n=3, core=(2,), sync=('CORE', 'TIMEOUT'), rounds=10),
           cl.Config(n=2, sync=('USER',), user=1, rounds=10),
-          cl.Config(n=3, sync=('LIST', 'TIMEOUT'), auto_fence=True, cut=1, rounds=6, k=5)]
+          cl.Config(n=3, sync=('LIST', 'TIMEOUT'), auto_fence=True, cut=1, rounds=6, k=5),
+          cl.Config(n=2, cut=1, rounds=11, k=8, sync=('LIST', 'TIMEOUT'))]
     if not q:
         e1 += [cl.Config(n=2, slow=[(2, 1), (2, 2)], rounds=11),
                cl.Config(n=2, slow=[(1, 2)], rounds=11),
@@ -26,7 +27,7 @@ def main(tier, seed, replay=None):
     allq3 = [(i, j) for i in (1, 2, 3) for j in (1, 2, 3)]
     sim = [cl.Config(n=3, slow=[(1, 3), (2, 3), (3, 3)], crash=1, restart=1, cut=1),
            cl.Config(n=3, slow=[(3, 1), (3, 2)], core=(2,), sync=('CORE', 'TIMEOUT'), crash=1, restart=1)]
-    rnd = [cl.Config(n=3, crash=1, restart=1, cut=1),
+    rnd = [cl.Config(n=3, crash=1, restart=1, cut=2),
            cl.Config(n=3, crash=2, restart=2, core=(2,), sync=('CORE',), fail='RESYNC'),
            cl.Config(n=4, crash=1, restart=1, cut=1, sync=('LIST', 'TIMEOUT'))]
     if not q:
